@@ -495,7 +495,11 @@ def run(prog, tier, extra=None):
         ch9 = None
         for bb, t in b9.calls():
             n9 = call_name(t) or ""
-            if "panicking::assert_failed" not in n9 and "panicking::assert_failed" not in (t.get("res") or ""):
+            r9 = t.get("res") or ""
+            is_assert = "panicking::assert_failed" in n9 or "panicking::assert_failed" in r9
+            # `assert!(cond)` lowers to core::panicking::panic("assertion failed: ..") behind a switch on cond
+            is_assert = is_assert or n9 in ("core::panicking::panic", "std::panicking::panic") or r9 in ("core::panicking::panic",)
+            if not is_assert:
                 continue
             ch9 = ch9 or c10.StableChaser(b9)
             res.instance(R9)
